@@ -1,14 +1,10 @@
 (* C11 driver: one case per input line, one result line per case (same text as harness/C11/zz_verif_c11_test.go).
-   argv[1] cases, argv[2] impl output or "-" (unused), argv[3] variant:
-     repaired | defective | d_range | d_stale | d_drop | d_bulk | d_relall            *)
+   argv[1] cases, argv[2] impl output or "-" (unused), argv[3] variant: repaired | d_stale (= Model.head) *)
 let flags_of_variant v =
   match v with
   | "repaired" -> repaired
-  | "defective" -> defective
-  | "d_head" | "d_stale_window" -> head
-  | "d_stale" -> { repaired with f_stale = true }
-  | "d_range" -> { repaired with f_range = true }
-  | "d_stale_bulk" -> { repaired with f_stale = true; f_bulk = true; f_window = true }
+  | "d_stale" | "head" -> head            (* /repo HEAD: the one open finding *)
+  | "defective" -> defective              (* /repo before the C11 fixes; not used by the check *)
   | _ -> failwith ("unknown variant " ^ v)
 
 let z_of_decimal s = match n_of_decimal s with N0 -> Z0 | Npos p -> Zpos p
